@@ -9,7 +9,7 @@ _Bool Utilities_approx__contract(double a, double b, double error_factor)
 __CPROVER_requires(error_factor >= 1.0 && error_factor <= 1e6)
 #ifdef KF_C11_APPROX_ZERO
 /* known finding C11-approx-zero: equal numbers at or next to zero (tolerance |min(a,b)|*eps*factor is zero or underflows) */
-__CPROVER_requires(!(a == b && fabs(a) < 1e-290))
+__CPROVER_requires(!(a == b && __CPROVER_fabs(a) < 1e-290))
 #endif
 __CPROVER_assigns()
 /* a listed point that coincides with a corner is recognised as that corner */
